@@ -504,6 +504,19 @@ func callUnmarshal(res xsel.Result, target any, settings []xsel.ContextApply) (o
 	return "OK"
 }
 
+var fixedUnm *Doc
+
+// fixedUnmDoc: <r><g><x><a>1</a><b><k/></b></x><x><a>2</a><b/></x></g><h><x><a>3</a><b/></x><x><a>4</a></x></h></r>
+func fixedUnmDoc(rn *Runner) *Doc {
+	st := func(n string) Event { return Event{Kind: EvStart, B: n} }
+	tx := func(v string) Event { return Event{Kind: EvText, A: v} }
+	end := Event{Kind: EvEnd}
+	return rn.NewDoc([]Event{st("r"),
+		st("g"), st("x"), st("a"), tx("1"), end, st("b"), st("k"), end, end, end, st("x"), st("a"), tx("2"), end, st("b"), end, end, end,
+		st("h"), st("x"), st("a"), tx("3"), end, st("b"), end, end, st("x"), st("a"), tx("4"), end, end, end,
+		end})
+}
+
 func famC19(rn *Runner) {
 	ndocs := rn.Scale(10, 120)
 	for di := 0; di < ndocs && !rn.TooMany(); di++ {
@@ -513,6 +526,18 @@ func famC19(rn *Runner) {
 		settings := env.Settings(d.Root)
 		for i := 0; i < rn.Scale(250, 700) && !rn.TooMany(); i++ {
 			r := u.r
+			// the first cases of every document are a fixed history over a fixed tree: the same struct type filled from
+			// <g> (every row complete), from <h> (the second row has no <b>: the call fails half-way through the slice) and
+			// from <g> again - what a failed call leaves behind must not reach the next one
+			d, env, settings := d, env, settings
+			fixed := i < 4
+			if fixed {
+				if fixedUnm == nil {
+					fixedUnm = fixedUnmDoc(rn)
+				}
+				d, env = fixedUnm, stdEnv()
+				settings = env.Settings(d.Root)
+			}
 			// the result handed to Unmarshal
 			var res VarVal
 			switch k := r.Intn(24); {
@@ -556,15 +581,19 @@ func famC19(rn *Runner) {
 			default:
 				bt = pick(r, scalarTypes)
 			}
+			if fixed {
+				bt = reflect.TypeOf(afterTop{})
+				res = VarVal{Kind: "nodes", Nodes: []Path{{{'c', 0}, {'c', []int{0, 1, 0, 1}[i]}}}}
+			}
 			base := reflect.New(bt) // *T, pointee settable
-			if r.Chance(1, 2) {
+			if r.Chance(1, 2) && !fixed {
 				u.populate(base.Elem(), 2)
 			}
 			// how it is passed
 			var target any
 			var tv reflect.Value
 			mode := r.Intn(12)
-			if r.Chance(1, 2) {
+			if r.Chance(1, 2) || fixed {
 				mode = 0
 			}
 			switch {
